@@ -37,9 +37,18 @@ type Outcome struct {
 	Len     *int   `json:"len,omitempty"`      // list length override
 }
 
+// Schedule perturbs when resolvers return, never what they return.
+type Schedule struct {
+	Mode string `json:"mode"` // "", "yield", "delay", "reverse", "mixed"
+	Seed uint64 `json:"seed"`
+	// Next: for mode reverse, the key whose completion a resolver waits for (bounded)
+	Next map[string]string `json:"next,omitempty"`
+}
+
 type Plan struct {
 	Seed      uint64             `json:"seed"`
 	Overrides map[string]Outcome `json:"overrides,omitempty"`
+	Schedule  *Schedule          `json:"schedule,omitempty"`
 	// NullRate: a nullable position is nil by default when hash%NullRate==0 (0 = never)
 	NullRate uint64 `json:"null_rate"`
 }
@@ -140,3 +149,30 @@ func (p *Plan) Float(key string) float64 {
 }
 
 func (p *Plan) Bool(key string) bool { return p.H(key, "bool")%2 == 0 }
+
+// Sched returns the schedule attributes for a resolver invocation.
+func (p *Plan) Sched(key string) (yield, sleepUS int, wait, signal string) {
+	sc := p.Schedule
+	if sc == nil || sc.Mode == "" {
+		return
+	}
+	q := Plan{Seed: sc.Seed}
+	h := q.H(key, "sched")
+	switch sc.Mode {
+	case "yield":
+		yield = int(h % 5)
+	case "delay":
+		sleepUS = int(h % 300)
+	case "mixed":
+		yield = int(h % 3)
+		if h%4 == 0 {
+			sleepUS = int((h >> 8) % 500)
+		}
+	case "reverse":
+		signal = "done:" + key
+		if n, ok := sc.Next[key]; ok {
+			wait = "done:" + n
+		}
+	}
+	return
+}
